@@ -9,14 +9,26 @@ TB = ("Lean 4.33 kernel (axioms propext, Classical.choice, Quot.sound only; audi
       "the artefact dump (harness/facto_dump.py) and Lean's JSON decoding; the program quantifier is exercised by generation")
 
 CHECKS = {
- "C01": ("proof", "6.C01", "Lean theorems on the circuit/denotation model + verified-validator correspondence on generated scalar programs"),
- "C02": ("proof", "6.C02", "Lean theorems (wildcard isolation, member-wise semantics) + correspondence on generated bundle programs"),
- "C03": ("proof", "6.C03", "Lean theorem gated_cell over all input streams + template/wiring correspondence and quasi-static history replay"),
- "C04": ("proof", "6.C04", "Lean theorem ring_iterates (value(t+L) = f(value t)) + correspondence on generated always-write cells, optimisation on/off"),
- "C05": ("proof", "6.C05", "Lean theorems on latch next-state functions and comparison inversion + correspondence on generated latch programs"),
- "C06": ("proof", "6.C06", "Lean theorems on inlined entity conditions + correspondence on generated entity programs with free chest contents"),
- "C15": ("proof", "6.C15", "reference elaborator (call = substitution with fresh copies) + correspondence of compiled blueprints with it"),
- "C16": ("proof", "6.C16", "Lean theorem on the translated get_iteration_values + reference elaborator (loop = unrolling) + correspondence"),
+ "C01": ("proof", "6.C01", "Lean theorems M1 settle/fixpoint + per-scheme lowering rule lemmas over the circuit and Core models; correspondence: elaborator + denotation vs simulated printed blueprint and wiring isolation check on generated scalar programs"),
+ "C02": ("proof", "6.C02", "Lean theorems on each/filter/gate closed forms and no-leak support lemmas; correspondence on generated bundle programs (whole anchor networks compared)"),
+ "C03": ("proof", "6.C03", "Lean theorem gated_cell_step for all enable/data/stored values + hold/follow/zero corollaries over streams; correspondence: quasi-static histories on generated gated cells"),
+ "C04": ("proof", "6.C04", "Lean theorem ring_iterates / ring_latency (value(t+k) = f(value t) for every tick); correspondence: latency search on generated always-write cells, optimisation on/off"),
+ "C05": ("proof", "6.C05", "Lean theorems sr_latch_step, inlined set-priority form, translated _invert_comparison correct, RS-latch negations (F22); correspondence on generated latch programs"),
+ "C06": ("proof", "6.C06", "Lean rule lemmas for inlined comparisons / decider conditions; correspondence: entity enable conditions vs denotation with free chest contents"),
+ "C07": ("proof", "6.C07", "Lean M5 (behaviour is a function of the decoded logical circuit) + canonical form; correspondence: planned placement properties and connections vs Lean decoding of the printed text, and all CLI entry points decoded and compared"),
+ "C08": ("proof", "6.C08", "Lean theorems: footprint-disjoint => collision-disjoint, tile/centre round trip, relay invariant on the pattern-translated RelayNode; correspondence: exact geometric check of every printed blueprint over the option x forced-solver-outcome matrix"),
+ "C09": ("proof", "6.C09", "Lean tile/centre theorem + reference elaborator placements (loops, calls, int arithmetic); correspondence: multiset of user entities in the printed blueprint"),
+ "C10": ("proof", "6.C10", "both builds are related to the same denotation (transitivity); correspondence on CSE-stress and C01-C06 generators with optimisation on and off"),
+ "C11": ("proof", "6.C11", "36 Lean theorems on the folders translated from the current source (agreement with the combinator ALU per operator, negations with witnesses for / and %); translator correspondence on 30k operand pairs; folding sites end to end"),
+ "C12": ("proof", "6.C12", "locality theorem evalEnt_local + wiring isolation; correspondence: P, Q and an interleaving of renamed-apart programs"),
+ "C13": ("proof", "6.C13", "denotation with abstract implicit types matched through the compiler's naming; static freshness rules on the compiler's signal map"),
+ "C14": ("proof", "6.C14", "Lean theorems: errors propagate through any prefix / loop body (violation anywhere rejected), reserved literal rejected in every state; correspondence: accept/reject and error class on one-violation mutants in 26 rule instances x 4 contexts, CLI sample"),
+ "C15": ("proof", "6.C15", "reference elaborator (call = substitution with fresh copies, lexical scoping); correspondence of compiled blueprints with it"),
+ "C16": ("proof", "6.C16", "Lean theorem C16_iteration_values on the translated get_iteration_values (termination is an obligation) + membership characterisation; elaborator unrolls over it; correspondence on generated loops"),
+ "C17": ("proof", "6.C17", "25 Lean theorems on lib/math.facto regenerated through the real parser (kernel-checked elaboration + contracts for all int32 arguments); hand model of preprocess_imports with differential expansion check from three working directories; pasted twins"),
+ "C18": ("proof", "6.C18", "Lean theorems grid_covers (1-D and 2-D) and the nearest-neighbour counter-model; correspondence: exact coverage / copper connectivity / pole type check of every printed blueprint"),
+ "C19": ("proof", "6.C19", "Lean M5 run_congr_of_same_circuit + canonical_ignores_position; correspondence: canonical logical circuits across hash seeds, solver budgets, prior compilations, working directories, concurrent load"),
+ "C20": ("proof", "6.C20", "outputs computed by the reference elaborator; correspondence: labels, anchors and observed anchor values of every unconsumed name, labelled inputs"),
 }
 
 
@@ -39,7 +51,7 @@ def main():
           for p in all_ids if p not in CHECKS]
     m = {
         "version": 1,
-        "setup_cmd": "cd /verif/lean && lake build Model driver Proofs",
+        "setup_cmd": "cd /verif && python3 harness/py2lean.py && python3 harness/py2lean.py --lib && cd lean && lake build Model driver gendriver Proofs",
         "hooks": {"guard": "FACTO_VERIF",
                   "enable": "no in-repo hooks: the harness (harness/facto_dump.py) wraps compiler methods from its own process",
                   "baseline_off_cmd": "cd /repo && /venv/bin/python -m pytest -q -p no:cacheprovider --timeout=900",
@@ -48,7 +60,7 @@ def main():
                      "kind_free_text": "Lean 4 model (Model/*.lean), proofs (Proofs/*.lean), native driver; Python harness runs the real compiler in-process"}],
         "checks": checks,
         "not_applicable": na,
-        "notes": "fix: commits in /repo: a01be8e (F01 export version), e0d3eba (F04 literal folding), c5d3578 (F11 zero variable step), 2bc1bf8 (F21 pump/power-switch enable)",
+        "notes": "fix: commits in /repo: a01be8e (F01 export version), e0d3eba (F04 literal folding), c5d3578 (F11 zero variable step), 2bc1bf8 (F21 pump/power-switch enable), a88e301 (F25 0/1 input treated as boolean), bafefc3 (F33 constant expression after ':')",
     }
     with open(os.path.join(VERIF, "MANIFEST.json"), "w") as f:
         json.dump(m, f, indent=1)
